@@ -364,6 +364,20 @@ def kinds_of(x, acc):
     return acc
 
 
+NESTING = {"if", "while", "dowhile", "for", "foreach", "switch", "try", "ifinst"}
+LOOPS = {"while", "dowhile", "for", "foreach"}
+
+
+def nesting_of(x, kinds):
+    """deepest nesting of statements of the given kinds inside x (measured, for the evidence)"""
+    if isinstance(x, list):
+        inner = max([nesting_of(y, kinds) for y in x] + [0])
+        return inner + (1 if x and isinstance(x[0], str) and x[0] in kinds else 0)
+    if isinstance(x, dict):
+        return max([nesting_of(v, kinds) for v in x.values()] + [0])
+    return 0
+
+
 STMT_KINDS = {"expr", "echo", "push", "setidx", "if", "while", "dowhile", "for", "foreach", "switch", "break", "continue",
               "return", "static", "try", "throw", "ifinst"}
 EXPR_KINDS = {"assign", "postinc", "call", "calln", "and", "or", "not", "arr", "new", "msg", "class", "same", "panic", "match", "idx", "idxinc", "closure", "callv", "prop", "setprop", "hi"}
@@ -1929,8 +1943,11 @@ def main(ck):
         "call frames are name-indexed maps standing for the per-call slot vectors (parser/scope_manager.go index assignment is not modelled)",
         "statement result values (the value beside the control) are not modelled: unobservable in the core since /repo 110cdb4",
         "harness/cmd/c02 (Go, vrun.RunString on a fresh VM per program) and checks/C02.py (generator, PHP and Coq printers)",
-        "not modelled: generators/yield, references (use (&$x), foreach by reference), classes and methods, goto, foreach over objects/iterators, "
-        "static initialisers other than literals, operators outside the typed domain (mixed-kind switch labels)",
+        "not modelled: generators/yield, references (use (&$x), foreach by reference, by-reference parameters), variadic parameters, classes and methods "
+        "(C05 adds exception objects), goto, foreach over objects/iterators, static initialisers other than literals, nested / conditional function "
+        "declarations, operators outside the typed domain (mixed-kind switch labels); closures, arrow functions and named arguments ARE modelled",
+        "RefSem shares Lang.v's operators, truthiness, switch_match, bind_params, foreach_items, incr_value, capture and to_str with ImplSem: for those "
+        "the comparison with the real engine (clause 1) is the evidence, clause 2 adds nothing; clause 7 (SlotSem) is implied by clauses 1 and 6",
     ]
     ck.prove()
     binary, out = ck.go_build("c02")
@@ -2093,6 +2110,8 @@ def main(ck):
             nontriv += 1
     sizes = sorted(size_of(c[0]) for c in cases)
     ck.cov["construct_occurrences"] = dist
+    ck.cov["max_statement_nesting"] = max([nesting_of(c[0], NESTING) for c in cases] + [0])
+    ck.cov["max_loop_nesting"] = max([nesting_of(c[0], LOOPS) for c in cases] + [0])
     ck.cov["program_size_median"] = sizes[len(sizes) // 2] if sizes else 0
     ck.cov["program_size_max"] = sizes[-1] if sizes else 0
     ck.cov["families"] = {f: sum(1 for c in cases if c[3] == f) for f in ("nest2", "alias", "escape", "recursion", "paramalias", "match", "closure", "callargs", "namedargs", "staticbranch", "index", "fallthrough", "random", "dirty", "replay")}
@@ -2100,9 +2119,10 @@ def main(ck):
     ck.samples = [srcs[len(srcs) // 2], srcs[-1]] if srcs else []
     ck.finish(level="proof", evaluations=len(cases), distinct_nontrivial=nontriv,
               rule="programs: every two-level nesting of {for, while, do-while, foreach, switch}^2 x {break, continue} x {1, 2} x "
-                   "{jump before/after the echo} (200), 18 boxed-integer aliasing probes, 25 recursion probes (depth up to 8, reads after the recursive call, "
+                   "{jump before/after the echo} (200), 18 boxed-integer aliasing probes, 26 recursion probes (depth up to 8, reads after the recursive call, "
                    "mutual recursion, recursion in loops), 20 parameter-aliasing probes (accumulating a by-value / defaulted parameter "
                    "in for/while/foreach bodies, caller's variable and default re-read afterwards), seeded random typed programs (functions with defaults, recursion, statics; "
-                   "loops/branches nested up to 5 levels, endless loops left by break, string and int switches with fall-through, functions printed before or after the main code), and a separate stream of small programs in the recorded defect classes; non-trivial = distinct "
+                   "loops/branches/try nested as deep as coverage.max_statement_nesting reports (generator limit: 5 statement levels, loops within loops up to coverage.max_loop_nesting), endless loops left by break, string and int switches with fall-through, functions printed before or after the main code, calls with named arguments), 13 named-argument programs (every positional-prefix / named-subset / order split, the four errors), 19 closure programs (fall-off, statics, captures), "
+                   "40 programs of the former defect classes (switch fall-through x3, static in the main script; all repaired, clean now), 146 built-in calls at minimum arity and 10 named-argument probes run on the engine only; non-trivial = distinct "
                    "program containing at least one loop, switch or call",
               traces=len(terms))
